@@ -149,8 +149,11 @@ def run_case(case, ctx, acc):
                     for f in ('num_volume', 'buried', 'energy_volume', 'energy_local', 'num_local'):
                         if not cmp.close(g[f], g0[f]):
                             v.append(('environment-changed/%s' % f, '%s %s %r default %r' % (k, f, g[f], g0[f])))
-                    if sorted(g['dets']['backbone']) != sorted(g0['dets']['backbone']):
-                        v.append(('environment-changed/backbone', '%s backbone %r default %r' % (k, g['dets']['backbone'], g0['dets']['backbone'])))
+                    # backbone partners of the default run must all survive with the same value (a list can only remove
+                    # penalisations, whose label-based determinant removal also hits backbone groups of the penalised residue)
+                    lostbb = [x for x in g0['dets']['backbone'] if not any(x[0] == y[0] and cmp.close(x[2], y[2]) for y in g['dets']['backbone'])]
+                    if lostbb:
+                        v.append(('hbond-partner-lost/backbone', '%s lost backbone %r (with list: %r)' % (k, lostbb, g['dets']['backbone'])))
 
                     def nside(grec, table):
                         out = []
